@@ -290,10 +290,14 @@ func (r *Run) Finish() int {
 		"rule":                          r.Rule,
 		"samples":                       r.samples,
 		"exhaustive":                    !r.Capped.Load(),
-		"states":                        r.States.Load(),
-		"transitions":                   r.Transitions.Load(),
-		"traces_validated_against_impl": r.Traces.Load(),
 		"known_findings_observed":       kids,
+	}
+	if r.States.Load() > 0 && r.Transitions.Load() > 0 {
+		cov["states"] = r.States.Load()
+		cov["transitions"] = r.Transitions.Load()
+		cov["traces_validated_against_impl"] = r.Traces.Load()
+	} else if r.Traces.Load() > 0 {
+		cov["executions_compared_with_reference"] = r.Traces.Load()
 	}
 	if len(r.samples) == 0 {
 		cov["samples"] = []any{"(none recorded)"}
